@@ -440,6 +440,14 @@ func c06BothTx(r *core.Run) {
 			return []flow.Tag{"bizbegin"}
 		case stdMethod(callee, pSQL, "DB", "BeginTx"):
 			return []flow.Tag{"fencebegin"}
+		case core.IsPkgFunc(callee, pTM, "SetFenceTxBeginedFlag") && len(call.Args) == 2:
+			if v := core.ConstVal(pkg.TypesInfo, call.Args[1]); v != nil && v.Kind() == constant.Bool {
+				if constant.BoolVal(v) {
+					return []flow.Tag{"flagup"}
+				}
+				return []flow.Tag{"-flagup"}
+			}
+			return []flow.Tag{"flagup"}
 		}
 		return nil
 	}
@@ -503,6 +511,18 @@ func c06BothTx(r *core.Run) {
 			r.Sites++
 			r.Check(!ex.St.Maybe("fenceend"), "C06.bothtx", core.ShortKey(fn.Obj)+" success hands out the fence transaction still open", w.Pos(ex.Pos),
 				"neither committed nor rolled back before the business transaction ends", "on a success path the fence transaction has already been ended here: what the fence handler wrote in it (the suspension record of an empty rollback) no longer shares the fate of the business transaction — a rollback-before-try is acknowledged and leaves no record, so the late try is accepted")
+		}
+		// the "fence transaction begun" flag makes the next BeginTx on this context hand out the bare business
+		// transaction; database/sql retries a begin that failed with a bad connection on the same context, so no
+		// failing exit may leave the flag raised
+		for _, ex := range res.Exits {
+			if ex.Class == flow.ExitOK {
+				continue
+			}
+			r.Sites++
+			role := exitRole(ex, func(t string) bool { return hasPrefixAny(t, "ok:bizbegin", "fail:bizbegin", "ok:fencebegin", "fail:fencebegin") })
+			r.Check(!ex.St.Maybe("flagup"), "C06.bothtx", core.ShortKey(fn.Obj)+" "+role+" leaves the fence-begun flag down", w.Pos(ex.Pos),
+				"the flag is raised only once both transactions are open and the fence step succeeded", "this failing return leaves the 'fence transaction begun' flag raised on the context: database/sql retries a begin that failed with driver.ErrBadConn on the same context, the retried BeginTx then takes the nested-begin branch and hands out the business transaction without opening a fence transaction or consulting the fence table — the phase runs unfenced (a late try after an empty rollback is admitted, a duplicate commit is applied again)")
 		}
 		for _, ex := range res.Exits {
 			if ex.Class == flow.ExitOK || !ex.St.Has("ok:bizbegin") {
